@@ -252,6 +252,21 @@ fn candidates(mg: &MoveGenerator, rng: &mut rand::rngs::StdRng, want: usize, max
             cs[wk] = 6;
             let bk = take(rng);
             cs[bk] = 12;
+            // one candidate in seven is king + pawn on the seventh rank against king: the family in which the choice of
+            // the promotion piece decides between win and stalemate
+            if rng.gen_range(0..7) == 0 {
+                let black = rng.gen_bool(0.5);
+                let f = rng.gen_range(0..8usize);
+                let sq = if black { 8 + f } else { 48 + f };
+                if cs[sq] == 0 {
+                    cs[sq] = if black { 7 } else { 1 };
+                    let b = proj::build_from(&cs, !black, "", None);
+                    if proj::playable_board(&b) {
+                        out.push(b);
+                    }
+                    continue;
+                }
+            }
             let extra = rng.gen_range(1..=(max_men.saturating_sub(2)).max(1).min(5));
             for _ in 0..extra {
                 let s = take(rng);
@@ -329,7 +344,7 @@ pub fn dump(args: &[String]) -> i32 {
                 tried += 1;
                 match catch_unwind(AssertUnwindSafe(|| Graph::build(&mg, &b, depth, cap))) {
                     Ok(Some(g)) => {
-                        if g.nodes.len() > max_nodes {
+                        if g.nodes.len() > max_nodes || g.nodes[0].moves.is_empty() {
                             continue;
                         }
                         let cs = proj::codes(&b);
@@ -339,12 +354,23 @@ pub fn dump(args: &[String]) -> i32 {
                         // a move after which the opponent has no move at all (mate or stalemate): terminal values right
                         // below the root, e.g. a queen promotion that stalemates while an under-promotion wins
                         let ends = g.nodes[0].moves.iter().any(|m| mg.generate_moves(&b.clone_with_move(m)).is_empty());
-                        let key = (men(&b).min(8) / 2, promo, piece, qedges >= 30, ends);
+                        // under-promotion matters: two promotions of one pawn to one square differ in whether they end the
+                        // game (the queen stalemates, the rook does not, ...)
+                        let promos: Vec<(&Move, bool)> = g.nodes[0].moves.iter().filter(|m| m.move_type == MoveType::Promotion)
+                            .map(|m| (m, mg.generate_moves(&b.clone_with_move(m)).is_empty())).collect();
+                        let under = promos.iter().any(|(m, e)| promos.iter().any(|(m2, e2)| m.from == m2.from && m.to == m2.to && e != e2));
+                        let root_chk = g.nodes[0].chk;
+                        let key = (men(&b).min(8) / 2 + if under { 100 } else { 0 } + if root_chk { 1000 } else { 0 }, promo, piece, qedges >= 30, ends);
                         buckets.entry(key).or_default().push(b);
                     }
                     Ok(None) => skipped_infinite += 1,
                     Err(_) => {}
                 }
+            }
+        }
+        if std::env::var("FH_DEBUG").is_ok() {
+            for (k, v) in &buckets {
+                eprintln!("bucket {:?}: {}", k, v.len());
             }
         }
         // round-robin over the buckets, rarest first
@@ -942,6 +968,248 @@ pub fn window(args: &[String]) -> i32 {
             }
             writeln!(w, "{}", json!({"ev":"window","fen":proj::project(b),"pos":proj::project_struct(b),"d":d,"v":v,"probes":probes,
                                      "excluded_deeper_entry_reused":excluded_deeper})).ok();
+        }
+    }
+    w.flush().ok();
+    0
+}
+
+// ---------------------------------------------------------------------------------------------
+// C05 on ARBITRARY positions, second oracle: the minimax recursion itself.  For a fresh engine and full
+// windows, V(p, d) = max over the legal moves m of -V(p.m, d-1), with V(., 0) the engine's own quiescence
+// value - by induction on d this IS "the reported score equals the minimax value of the depth-limited tree
+// whose leaves are scored by the engine's own quiescence evaluation".  Every V is a separate completed
+// search of a fresh engine, so a search that drops, reorders-and-loses or mis-scores a move at the root
+// disagrees with its own children.  No game graph is needed (positions with an unbounded quiescence tree
+// are in scope); the move list is validated by TLC against ChessRules (BellmanTrace.tla).
+// ---------------------------------------------------------------------------------------------
+pub fn bellman(args: &[String]) -> i32 {
+    let seed: u64 = arg(args, "--seed", "1").parse().unwrap();
+    let want: usize = arg(args, "--positions", "20").parse().unwrap();
+    let kpk: usize = arg(args, "--kpk", "0").parse().unwrap();
+    let maxdepth: u8 = arg(args, "--maxdepth", "2").parse().unwrap();
+    let fens = arg(args, "--fens", "");
+    let out_path = arg(args, "--out", "");
+    let mg = MoveGenerator::new();
+    let mut rng = rand::rngs::StdRng::seed_from_u64(seed);
+    let mut w = std::io::BufWriter::new(std::fs::File::create(&out_path).unwrap());
+    let mut boards: Vec<Board> = vec![];
+    if !fens.is_empty() {
+        for l in std::fs::read_to_string(&fens).unwrap().lines() {
+            if let Ok(b) = proj::build(l.trim()) {
+                boards.push(b);
+            }
+        }
+    } else {
+        // king + pawn on the seventh rank (+ sometimes one more man) against king, the pawn's side to move
+        let mut guard = 0;
+        while boards.len() < kpk && guard < kpk * 50 {
+            guard += 1;
+            let mut cs = vec![0i32; 64];
+            let black = rng.gen_bool(0.5);
+            let f = rng.gen_range(0..8usize);
+            cs[if black { 8 + f } else { 48 + f }] = if black { 7 } else { 1 };
+            let mut free: Vec<usize> = (0..64).filter(|&q| cs[q] == 0).collect();
+            let mut take = |rng: &mut rand::rngs::StdRng| {
+                let i = rng.gen_range(0..free.len());
+                free.swap_remove(i)
+            };
+            let (a, b2) = (take(&mut rng), take(&mut rng));
+            cs[a] = 6;
+            cs[b2] = 12;
+            if rng.gen_bool(0.3) {
+                let q = take(&mut rng);
+                let k = [2, 3, 4, 5, 8, 9, 10, 11][rng.gen_range(0..8)];
+                cs[q] = k;
+            }
+            if proj::playable(&cs, !black) {
+                boards.push(proj::build_from(&cs, !black, "", None));
+            }
+        }
+        // positions of every phase from random games
+        let target = boards.len() + want;
+        while boards.len() < target {
+            let mut b = Board::default();
+            let stop_at = rng.gen_range(4..160);
+            for ply in 0..stop_at {
+                let moves = mg.generate_moves(&b);
+                if moves.is_empty() {
+                    break;
+                }
+                if ply + 1 == stop_at {
+                    boards.push(b);
+                }
+                let caps: Vec<&Move> = moves.iter().filter(|m| m.move_type != MoveType::Quiet).collect();
+                let m = if !caps.is_empty() && rng.gen_bool(0.4) { *caps[rng.gen_range(0..caps.len())] } else { moves[rng.gen_range(0..moves.len())] };
+                b.make_move(&m);
+            }
+        }
+    }
+    let inf = 32767i32;
+    let mut s = Searcher::new();
+    // one completed full-window search of a fresh engine at exactly depth d: (value, move, deeper-entry hits)
+    let mut value = |s: &mut Searcher, b: &Board, d: u8| -> Option<(i32, Option<Move>, u64)> {
+        catch_unwind(AssertUnwindSafe(|| {
+            s.verif_reset();
+            crate::search::verif::reset_counters();
+            if d == 0 {
+                let v = s.verif_search_window(b, 0, -inf, inf);
+                (v, None, 0)
+            } else {
+                let (v, m) = s.verif_search_fixed(b, d);
+                (v, m, crate::search::verif::counters().1)
+            }
+        }))
+        .ok()
+    };
+    let mut excluded = 0u64;
+    for b in boards.iter() {
+        if !proj::playable_board(b) {
+            continue;
+        }
+        let moves = match catch_unwind(AssertUnwindSafe(|| mg.generate_moves(b))) {
+            Ok(m) => m,
+            Err(_) => continue,
+        };
+        if moves.is_empty() {
+            continue;
+        }
+        for d in 1..=maxdepth {
+            let (v, mv, deeper) = match value(&mut s, b, d) {
+                Some(x) => x,
+                None => {
+                    writeln!(w, "{}", json!({"ev":"bellman","fen":proj::project(b),"pos":proj::project_struct(b),"d":d,"panic":true})).ok();
+                    s = Searcher::new();
+                    continue;
+                }
+            };
+            if deeper > 0 {
+                excluded += 1;
+                continue;
+            }
+            let mut kids = vec![];
+            let mut bad = false;
+            for m in &moves {
+                let c = b.clone_with_move(m);
+                match value(&mut s, &c, d - 1) {
+                    Some((cv, _, cd)) => {
+                        if cd > 0 {
+                            bad = true;
+                            break;
+                        }
+                        kids.push(json!([proj::move_text(m), clamp(cv)]));
+                    }
+                    None => {
+                        kids.push(json!([proj::move_text(m), 99999999]));
+                        s = Searcher::new();
+                    }
+                }
+            }
+            if bad {
+                excluded += 1;
+                continue;
+            }
+            writeln!(w, "{}", json!({"ev":"bellman","fen":proj::project(b),"pos":proj::project_struct(b),"d":d,"v":clamp(v),
+                                     "move":mv.map(|m| proj::move_text(&m)).unwrap_or_else(|| "-".into()),"kids":kids,
+                                     "excluded_deeper_entry_reused":excluded})).ok();
+        }
+    }
+    w.flush().ok();
+    0
+}
+
+// ---------------------------------------------------------------------------------------------
+// C06 on ARBITRARY positions: a search interrupted at the j-th poll, then a completed fixed-depth search of
+// the same position on the same Searcher, must report what a fresh engine reports (which is the minimax
+// value by the recursion check above), and the game-history stack must be as before.  Depth <= 3, and runs
+// in which the completed search reused an entry searched deeper than a node requires are excluded (C05's
+// and C06's reference value is the depth-limited one).
+// ---------------------------------------------------------------------------------------------
+pub fn aborteq(args: &[String]) -> i32 {
+    let seed: u64 = arg(args, "--seed", "1").parse().unwrap();
+    let want: usize = arg(args, "--positions", "10").parse().unwrap();
+    let depth: u8 = arg(args, "--depth", "3").parse().unwrap();
+    let samples: u64 = arg(args, "--samples", "40").parse().unwrap();
+    let fens = arg(args, "--fens", "");
+    let out_path = arg(args, "--out", "");
+    let mg = MoveGenerator::new();
+    let mut rng = rand::rngs::StdRng::seed_from_u64(seed);
+    let mut w = std::io::BufWriter::new(std::fs::File::create(&out_path).unwrap());
+    let mut boards: Vec<Board> = vec![];
+    if !fens.is_empty() {
+        for l in std::fs::read_to_string(&fens).unwrap().lines() {
+            if let Ok(b) = proj::build(l.trim()) {
+                boards.push(b);
+            }
+        }
+    }
+    while boards.len() < want {
+        let mut b = Board::default();
+        let stop_at = rng.gen_range(4..140);
+        for ply in 0..stop_at {
+            let moves = mg.generate_moves(&b);
+            if moves.is_empty() {
+                break;
+            }
+            if ply + 1 == stop_at {
+                boards.push(b);
+            }
+            let caps: Vec<&Move> = moves.iter().filter(|m| m.move_type != MoveType::Quiet).collect();
+            let m = if !caps.is_empty() && rng.gen_bool(0.4) { *caps[rng.gen_range(0..caps.len())] } else { moves[rng.gen_range(0..moves.len())] };
+            b.make_move(&m);
+        }
+    }
+    let mut s = Searcher::new();
+    for b in boards.iter() {
+        if !proj::playable_board(b) || mg.generate_moves(b).is_empty() {
+            continue;
+        }
+        for d in 2..=depth {
+            // reference: a fresh engine, one fixed-depth search; and the number of polls of a complete iterative search
+            let r = catch_unwind(AssertUnwindSafe(|| {
+                s.verif_reset();
+                crate::timer::verif::set_poll_limit(None);
+                let (v, _) = s.verif_search_fixed(b, d);
+                s.verif_reset();
+                let _ = s.find_best_move(b, d, None);
+                (v, crate::timer::verif::poll_stats().0)
+            }));
+            let (fresh, polls) = match r {
+                Ok(x) => x,
+                Err(_) => {
+                    s = Searcher::new();
+                    continue;
+                }
+            };
+            if polls > 400_000 {
+                continue;
+            }
+            let mut runs = vec![];
+            let mut excluded = 0u64;
+            for i in 0..samples {
+                let j = if i == 0 { 1 } else { rng.gen_range(1..=polls.max(1)) };
+                let r = catch_unwind(AssertUnwindSafe(|| {
+                    s.verif_reset();
+                    crate::timer::verif::set_poll_limit(Some(j));
+                    let _ = s.find_best_move(b, d, None);
+                    crate::timer::verif::set_poll_limit(None);
+                    let rep = s.verif_repetition_len();
+                    crate::search::verif::reset_counters();
+                    let (v2, _) = s.verif_search_fixed(b, d);
+                    (v2, rep, crate::search::verif::counters().1)
+                }));
+                crate::timer::verif::set_poll_limit(None);
+                match r {
+                    Ok((_, _, deeper)) if deeper > 0 => excluded += 1,
+                    Ok((v2, rep, _)) => runs.push(json!([j, clamp(v2), rep])),
+                    Err(_) => {
+                        runs.push(json!([j, 99999999, 0]));
+                        s = Searcher::new();
+                    }
+                }
+            }
+            writeln!(w, "{}", json!({"ev":"aborteq","fen":proj::project(b),"pos":proj::project_struct(b),"d":d,"fresh":clamp(fresh),
+                                     "polls":polls,"runs":runs,"excluded_deeper_entry_reused":excluded})).ok();
         }
     }
     w.flush().ok();
